@@ -4,12 +4,12 @@ from .common import short
 
 _cache = {}
 
-# container / message operations that rules name: wrappers with these names stay opaque even when crate-private
-VOCAB = {"pop_front", "pop_back", "pop", "push_front", "push_back", "push", "prepend", "split_off", "insert", "remove", "clear",
-         "take", "replace", "send", "recv", "try_send", "lock"}
+# the message type's own methods are vocabulary the rules speak in (push_front, pop_front, split_off, ...): they stay opaque
+# whatever their visibility; every other crate-private helper is looked through, whatever it is called
+VOCAB_TYPES = ("message::ZmqMessage::",)
 
 
-def default_inline(f):
+def default_inline(f, allow_async=False):
     """Virtual inlining policy: crate-private, synchronous, inherent/free helper functions are looked through, so that extracting
     or merging a private helper does not move an anchor out of sight. Public functions, trait-impl methods (interface
     points that rules name) and listed read-only accessors stay opaque."""
@@ -25,10 +25,10 @@ def default_inline(f):
             return False
         if b.j.get("impl_trait"):
             return False
-        if fn["name"] in PURE_NAMES or fn["name"] in VOCAB:
+        if fn["name"] in PURE_NAMES or any(v in path for v in VOCAB_TYPES):
             return False
         sig = f.fns.get(path)
-        if sig is None or sig.get("is_async"):
+        if sig is None or (sig.get("is_async") and not allow_async):
             return False
         if sig.get("vis", "").startswith("Public"):
             return False
@@ -36,10 +36,11 @@ def default_inline(f):
     return pred
 
 
-def scope(f, body, depth=3):
+def scope(f, body, depth=3, allow_async=False):
     """`body`, the private helpers the default policy looks through (transitively), and the closures of all of them:
-    the unit a syntactic scan has to cover so that moving code into a private helper does not hide it."""
-    pred = default_inline(f)
+    the unit a syntactic scan has to cover so that moving code into a private helper does not hide it.
+    allow_async: private `async fn` helpers too (their coroutine bodies are children of the helper)."""
+    pred = default_inline(f, allow_async)
     out, seen, todo = [], set(), [(body, 0)]
     while todo:
         b, d = todo.pop()
@@ -48,7 +49,7 @@ def scope(f, body, depth=3):
         seen.add(b.path)
         out.append(b)
         for k in f.children(b):
-            if k.kind == "Closure" and k.path not in seen:
+            if (k.kind == "Closure" or (allow_async and k.j.get("coroutine_kind") and b is not body)) and k.path not in seen:
                 todo.append((k, d))
         if d < depth:
             for bb, t, fn in b.calls():
@@ -60,12 +61,16 @@ def scope(f, body, depth=3):
     return out
 
 
-def paths(f, body, max_visits=2, cut_at_yield=False, max_paths=50000, inline=True, **kw):
-    key = (id(f), body.path, max_visits, cut_at_yield, inline, tuple(sorted(kw)))
+def paths(f, body, max_visits=2, cut_at_yield=False, max_paths=50000, inline=True, inline_async=False, **kw):
+    """inline_async: private `async fn` helpers are looked through as well - the helper's suspension points appear as yield
+    events of the path and its poll returns Ready(value) (the Pending arm is represented by those yields)."""
+    key = (id(f), body.path, max_visits, cut_at_yield, inline, inline_async, tuple(sorted(kw)))
     if key not in _cache:
         if inline and "inline" not in kw:
-            kw = dict(kw, inline=default_inline(f), inline_depth=3)
-        _cache[key] = Sym(f, max_visits=max_visits, cut_at_yield=cut_at_yield, max_paths=max_paths, **kw).paths(body)
+            kw = dict(kw, inline=default_inline(f, allow_async=inline_async), inline_depth=3)
+        s = Sym(f, max_visits=max_visits, cut_at_yield=cut_at_yield, max_paths=max_paths, **kw)
+        s.inline_async = inline_async
+        _cache[key] = s.paths(body)
     return _cache[key]
 
 
